@@ -166,6 +166,50 @@ func c18GenCodes(s Src) c18Case {
 	return c
 }
 
+// c18GenPopulated: a resource of a drawn type with many populated elements and a history of
+// add operations, each naming a scalar element that is already populated (a fresh value of
+// the element's own type is offered): every one must be refused and leave the resource as it
+// was.  All R4 types come up (Encounter.class, Task.for … included), not only Patient.
+func c18GenPopulated(s Src) c18Case {
+	typ := allResTypes[s.Intn(len(allResTypes))].Name
+	res := genResource(s, typ, genOpts{MaxDepth: 3, Budget: 90, P0: 65, Contained: false})
+	c := c18Case{Res: resToText(res)}
+	root, _, err := buildTree(res)
+	if err != nil {
+		return c
+	}
+	type pair struct {
+		parent *Node
+		name   string
+	}
+	var pairs []pair
+	visit := func(n *Node) {
+		if n.Msg == nil || n.Synth || n.ViaAny || n.Prim {
+			return
+		}
+		for _, name := range n.KidOrder {
+			k := n.Kids[name][0]
+			if k.IsList || k.Choice || k.Synth || k.ViaAny || k.Msg == nil || name == "id" || name == "div" {
+				continue
+			}
+			pairs = append(pairs, pair{n, name})
+		}
+	}
+	visit(root)
+	root.walk(visit)
+	for i := 0; i < 12 && len(pairs) > 0; i++ {
+		j := s.Intn(len(pairs))
+		p := pairs[j]
+		pairs = append(pairs[:j], pairs[j+1:]...)
+		op := c18Op{Op: "add", Name: p.name, Value: "same", Pkg: s.Prob(20), Seed: 1 + s.Intn(1000)}
+		if p.parent != root {
+			op.Steps = c02IndexedSteps(p.parent, 0xffff)
+		}
+		c.Ops = append(c.Ops, op)
+	}
+	return c
+}
+
 func c18Gen(s Src) c18Case {
 	o := defaultGen
 	o.Contained = s.Prob(15)
@@ -1076,12 +1120,13 @@ var _ = reflect.TypeOf
 
 func TestC18(t *testing.T) {
 	r := newRec("C18",
-		"a history case is one resource (the fixture Patient or a generated resource of any R4 type) and 1..5 operations; each operation targets a node of the current JSON tree (un-indexed, fully or partly indexed) optionally filtered by first()/last()/tail()/where(true|false)/[0]/extension(url)/where(id.exists()), with op ∈ {add, insert, delete, replace, move}, an element name (valid, unknown, snake_case), an index in [-1,4] and a value that is a fresh element of the target's type, a sibling type (Code for an enum code, Integer for unsigned, …), a wrong type, a clone of the target or nil; method and package-level entry points.  Oracle after every step: error ⇒ resource and value bit-identical (deterministic serialisation, presence bits, proto.Equal); nil ⇒ the resource equals M-PATCH applied to a clone (independent protoreflect implementation on the target located by tree semantics; proto.Equal and google/fhir JSON), or, where the model does not predict the success, nothing changes when the path selects nothing; Move ⇒ ErrNotImplemented and unchanged.  Inverse-pair cases: add→delete, insert→delete, replace→replace-back restore the resource.  Code cases: one add/replace of a plain Code on an enum-backed code element with a valid code or an invalid spelling of one (foreign, `_`/space/`.` for `-`, upper case, proto enum name, camelCase, padded): a code outside the value set must be refused (the tree would gain a text the element cannot hold).  non-trivial = an operation succeeded and changed the tree, or failed on a path selecting ≥ 1 node (histories); both steps succeeded (inverse pairs); distinct = FNV-64 of the case",
+		"a history case is one resource (the fixture Patient or a generated resource of any R4 type) and 1..5 operations; each operation targets a node of the current JSON tree (un-indexed, fully or partly indexed) optionally filtered by first()/last()/tail()/where(true|false)/[0]/extension(url)/where(id.exists()), with op ∈ {add, insert, delete, replace, move}, an element name (valid, unknown, snake_case), an index in [-1,4] and a value that is a fresh element of the target's type, a sibling type (Code for an enum code, Integer for unsigned, …), a wrong type, a clone of the target or nil; method and package-level entry points.  Oracle after every step: error ⇒ resource and value bit-identical (deterministic serialisation, presence bits, proto.Equal); nil ⇒ the resource equals M-PATCH applied to a clone (independent protoreflect implementation on the target located by tree semantics; proto.Equal and google/fhir JSON), or, where the model does not predict the success, nothing changes when the path selects nothing; Move ⇒ ErrNotImplemented and unchanged.  Inverse-pair cases: add→delete, insert→delete, replace→replace-back restore the resource.  Populated-scalar cases: a densely populated resource of a drawn type and up to 12 add operations that each name an already populated scalar element: all must be refused.  Code cases: one add/replace of a plain Code on an enum-backed code element with a valid code or an invalid spelling of one (foreign, `_`/space/`.` for `-`, upper case, proto enum name, camelCase, padded): a code outside the value set must be refused (the tree would gain a text the element cannot hold).  non-trivial = an operation succeeded and changed the tree, or failed on a path selecting ≥ 1 node (histories); both steps succeeded (inverse pairs); distinct = FNV-64 of the case",
 		"the statement is conditional on success: which well-typed operations succeed is reported (success:* classes) but not asserted", "google/fhir jsonformat defines the JSON rendering")
 	runProperty(t, r,
 		Stage[c18Case]{Name: "histories", Gen: c18Gen, Run: c18Run, N: pick(2500, 25000)},
 		Stage[c18InvCase]{Name: "inverse-pairs", Gen: c18GenInv, Run: c18RunInv, N: pick(1500, 12000)},
 		Stage[c18Case]{Name: "codes", Gen: c18GenCodes, Run: c18Run, N: pick(1500, 15000)},
+		Stage[c18Case]{Name: "populated-scalars", Gen: c18GenPopulated, Run: c18Run, N: pick(500, 8000)},
 	)
 }
 
